@@ -12,7 +12,7 @@ use crate::exch_run::{replay_exchange, run_exchanges};
 use crate::gen::*;
 use crate::refmodel::framing::{decide, Framing};
 
-pub const RULE: &str = "full product: request version {1.0,1.1} x request Connection {absent, close, keep-alive, keep-alive+close as two fields} x request kind {GET, HEAD, POST with Content-Length, POST with Expect, GET carrying an Expect header, GET obtained by following a 302 of a POST} x Expect outcome {100 received / late 100 after give-up, silent server + give-up, refused bare, refused with fields} x response version {1.0,1.1} x status {200,204,205,300,304,404,302 and 399 with Location; 101 and 103 as bare answers to Expect} x response framing {none, Content-Length: 0, Content-Length: 3, chunked} x response Connection {absent, close, keep-alive, keep-alive+close}; every cell explored through the real flow under all mixtures of whole-message and 1-byte arrivals (quick: whole-message arrivals + give-up at every point), verdict read in the Redirect state and in Cleanup; part b: every prefix, cut after the complete Location line, of 3xx heads with Connection / framing fields before and after the Location line (3 methods x 3 statuses x 7 x 4 field sets x every cut): whenever the library accepts such a prefix as a complete response (known finding KF1 of C05) the exchange must end must-close; part c: every cell once more along the canonical schedule with a driver that judges nothing but the final verdict against the ground truth of the server script. distinct = distinct (cell, final observation) pairs";
+pub const RULE: &str = "full product: request version {1.0,1.1} x request Connection {absent, close, keep-alive, keep-alive+close as two fields} x request kind {GET, HEAD, POST with Content-Length, POST with Expect, GET carrying an Expect header, GET obtained by following a 302 of a POST} x Expect outcome {100 received / late 100 after give-up, silent server + give-up, refused bare, refused with fields} x response version {1.0,1.1} x status {200,204,205,300,304,404,302 and 399 with Location; 101 and 103 as bare answers to Expect} x response framing {none, Content-Length: 0, Content-Length: 3, chunked} x response Connection {absent, close, keep-alive, keep-alive+close, close preceded by an empty-valued field}; every cell explored through the real flow under all mixtures of whole-message and 1-byte arrivals (quick: whole-message arrivals + give-up at every point), verdict read in the Redirect state and in Cleanup; part b: every prefix, cut after the complete Location line, of 3xx heads with Connection / framing fields before and after the Location line (3 methods x 3 statuses x 7 x 4 field sets x every cut): whenever the library accepts such a prefix as a complete response (known finding KF1 of C05) the exchange must end must-close; part c: every cell once more along the canonical schedule with a driver that judges nothing but the final verdict against the ground truth of the server script. distinct = distinct (cell, final observation) pairs";
 
 pub fn build(tier: Tier) -> Vec<Arc<ExchCfg>> {
     let mut out = Vec::new();
@@ -61,11 +61,15 @@ pub fn build(tier: Tier) -> Vec<Arc<ExchCfg>> {
                                 continue;
                             }
                             for fr in ["none", "cl0", "cl3", "chunked"] {
-                                for sconn in conns {
+                                for (sconn, pad) in conns.iter().map(|c| (*c, false)).chain([(&["close"][..], true)]) {
                                     if *oc == "refused-bare" && (fr != "none" || !sconn.is_empty() || status == 302 || status == 399) {
                                         continue; // a bare head has no fields at all
                                     }
                                     let mut extra: Vec<(&str, &str)> = Vec::new();
+                                    if pad {
+                                        // an empty-valued field ahead of the Connection field (must not hide it)
+                                        extra.push(("X-Pad", ""));
+                                    }
                                     if status == 302 || status == 399 {
                                         extra.push(("Location", "/next"));
                                     }
